@@ -1,8 +1,9 @@
 //! Witness search for C04 / C03: the REAL deduplication::Chunker against an independent reference implementation of the gear-hash
 //! rule (first cut: length == max, or length > min-65 and the gear hash of the bytes from offset max(min-65,0) meets the mask), on
-//! structured streams and call partitions, under the default limits and under several (MINIMUM_CHUNK_DIVISOR,
-//! MAXIMUM_CHUNK_MULTIPLIER[, TARGET_CHUNK_SIZE]) settings - one re-executed process per configuration, HF_XET_* overrides (honoured
-//! in builds with debug assertions).  Checked: chunk lengths == reference, chunk bytes concatenate to the input, every chunk's hash
+//! structured streams and call partitions, under the default limits and under (MINIMUM_CHUNK_DIVISOR, MAXIMUM_CHUNK_MULTIPLIER,
+//! TARGET_CHUNK_SIZE) = (6, 3, 4096), (3, 5, -), (16, 2, 2^17), (1, 2, 1024: minimum == target), (8, 1, 256: maximum == target),
+//! (2048, 2, 128: minimum < 65, no skip-ahead), (63, 4, 8192: minimum 65 at target 4096) - one re-executed process per configuration,
+//! HF_XET_* overrides (honoured in builds with debug assertions).  Targets 128, 1024, 4096, 65536 (+ 2^20 under the defaults).  Checked: chunk lengths == reference, chunk bytes concatenate to the input, every chunk's hash
 //! == compute_data_hash(its bytes), size bounds, the contract of next() (consumed <= given; everything consumed when no chunk comes
 //! back; (None, 0) on empty non-final input), flushing through is_final / finish(), reuse after a final call, Chunker::default().
 //! Prints `WITNESS ...` and exits 1 on the first disagreement.
@@ -361,27 +362,33 @@ fn child(idx: usize) -> i32 {
         targets.push(1 << 20);
     }
     for &target in &targets {
+        lap(&format!("target {target}: start"));
         let huge = target == 1 << 20;
-        let len = if huge { 5 << 20 } else { (target * 200).min(if e.default_config { 3 << 20 } else { 2 << 20 }) };
+        let len = if huge { 5 << 20 } else { (target * 200).min(2 << 20) };
         let mut streams: Vec<(String, Vec<u8>)> = vec![];
         let mut r = vec![0u8; len];
         rng.fill(&mut r[..]);
         streams.push(("a random stream".into(), r.clone()));
-        streams.push(("a stream of zeros".into(), vec![0u8; len]));
-        if !huge {
-            let mut p = r.clone();
+        // the structured streams are shorter at the large targets (time), and two of them are left to the default configuration there
+        let slen = if target >= 65536 { len / 2 } else { len };
+        streams.push(("a stream of zeros".into(), vec![0u8; slen]));
+        if !huge && (e.default_config || target < 65536) {
+            let mut p = r[..slen].to_vec();
             for i in 0..p.len() {
                 p[i] = r[i % 97];
             }
             streams.push(("a period-97 stream".into(), p));
-            let mut low = r.clone();
+            let mut low = r[..slen].to_vec();
             for b in low.iter_mut() {
                 *b &= 1;
             }
             streams.push(("a two-symbol stream".into(), low));
         }
         let budget = if huge { 6 } else { ((4 << 20) / (target * mult)).clamp(8, 60) };
-        match block_stream(&mut rng, target, &e, budget) {
+        lap(&format!("target {target}: streams generated"));
+        let bs = block_stream(&mut rng, target, &e, budget);
+        lap(&format!("target {target}: block stream crafted"));
+        match bs {
             Some((s, lens, what)) => {
                 let got = reference(&s, target, div, mult);
                 if got != lens {
@@ -420,7 +427,7 @@ fn child(idx: usize) -> i32 {
             }
             lap(&format!("target {target}: patterns on {}", &name[..name.len().min(30)]));
             // the one-byte call pattern on a prefix of the stream (the prefix re-chunks like the stream up to its last chunk)
-            let plen = s.len().min(if huge { 3 << 20 } else if e.default_config { 1 << 19 } else { 1 << 18 });
+            let plen = s.len().min(if huge { 3 << 20 } else if e.default_config { 1 << 19 } else { 1 << 17 });
             if !(huge && zeros) {
                 let p = &s[..plen];
                 let want = expected(p, target, &e);
@@ -470,9 +477,15 @@ fn child(idx: usize) -> i32 {
         lap(&format!("target {target}: short streams done"));
         // constant streams of every byte value (gear-hash fixed points): 6 maximum chunks + 5 bytes
         if target <= 4096 {
+
             for b in 0..=255u8 {
-                let s = vec![b; 6 * max + 5];
-                let want = expected(&s, target, &e);
+                let mut s = vec![b; 6 * max + 5];
+                let mut want = expected(&s, target, &e);
+                if want.len() > 1500 {
+                    // a fixed point that meets the mask: tiny chunks; 1500 of them are enough
+                    s.truncate(want[..1500].iter().map(|w| w.0).sum::<usize>() + 5);
+                    want = expected(&s, target, &e);
+                }
                 for (pieces, mode) in [(vec![usize::MAX], 1u8), (vec![61], 0), (vec![max, 1], 3)] {
                     compare(&e, &format!("a stream of {} bytes of value {b:#04x}", s.len()), Some(target), target, &s, &want, &pieces, mode);
                 }
